@@ -561,6 +561,50 @@ def rule_init(ctx, tu):
     ctx.floor(R, 1)
 
 
+def rule_intdiv(ctx, tu):
+    """C11.INTDIV -- integer `/` and `%` are undefined for a zero divisor.  Every integer division of the engine divides by a
+    product of the grid extents w, h, d (positive: non-positive grid sizes are rejected before the engine is reached, C20), by a
+    non-zero literal, or under a dominating test that the divisor is not zero.  A count that can be empty (samples, neighbours,
+    species of a reaction) is none of these."""
+    R = "C11.INTDIV"
+    INT = ("int", "long", "unsigned int", "size_t", "unsigned long", "long long", "const int", "short", "unsigned long long")
+    POS = {"w", "h", "d"}
+    n = 0
+    for f in tu.all_fns():
+        if f.body is None:
+            continue
+        sites = []
+
+        def on_atom(node, facts, sites=sites):
+            for x in walk(node):
+                if x.get("kind") in ("BinaryOperator", "CompoundAssignOperator") and x.get("opcode") in ("/", "%", "/=", "%=") and \
+                        x.get("type", {}).get("qualType", "") in INT:
+                    r_ = strip(kids(x)[1], casts=True)
+                    if strip(kids(x)[1]).get("type", {}).get("qualType", "") in INT or r_.get("type", {}).get("qualType", "") in INT:
+                        sites.append((x, r_, set(facts)))
+        cxa.canon_facts(f.body, on_atom=on_atom)
+        seen = set()
+        for x, r_, facts in sites:
+            if id(x) in seen:
+                continue
+            seen.add(id(x))
+            lit = cxa.const_int(r_)
+            atoms = {uname(y) or name_of(y) for y in walk(r_) if y.get("kind") in ("DeclRefExpr", "MemberExpr")}
+            only_mul = all(y.get("kind") in ("DeclRefExpr", "MemberExpr", "ParenExpr", "ImplicitCastExpr", "CXXThisExpr") or
+                           (y.get("kind") == "BinaryOperator" and y.get("opcode") == "*") for y in walk(r_))
+            t = cxa.canon(r_)
+            guarded = any((a == "%s == 0" % t and pol is False) or (a == "0 < %s" % t and pol is True) or
+                          (a == "%s <= 0" % t and pol is False) or (a == "0 == %s" % t and pol is False)
+                          for a, pol in facts if isinstance(a, str))
+            okk = (lit is not None and lit != 0) or (only_mul and atoms and atoms <= POS) or guarded
+            n += 1
+            ctx.check(okk, R, x, f.qual, text(x)[:60], "divisor: grid extents, a non-zero literal, or tested non-zero",
+                      "integer division by `%s`, which can be zero and is not tested: undefined behaviour (the process is killed "
+                      "with SIGFPE)" % text(r_)[:40])
+    ctx.need(n >= 6, R, "only %d integer divisions found in the engine" % n)
+    ctx.floor(R, 6)
+
+
 def rule_env_range(ctx, py, tu):
     """C11.ENV-RANGE -- the engine indexes its per-environment tables (k, D) with the values of mesh_env.  Those values are
     validated against the network's environment list (C20.EXTIDX), so the table extent handed over as n_env must be the length of
@@ -632,6 +676,7 @@ def run(ctx):
     ffi.rule_sig(ctx, "C11.FFI")
     ffi.rule_extent(ctx, "C11.FFI-EXTENT", I, ptr_req)
     rule_env_range(ctx, ctx.py, tu)
+    rule_intdiv(ctx, tu)
     # lifecycle part of memory safety (shared rules, reported under this property's ids)
     flag = c10.find_flag(ctx, tu)
     n0 = len(ctx.insts)
